@@ -34,7 +34,7 @@ REQUIRED_COUNTERS = [
     "verdicts.accept", "verdicts.reject", "definitions.substituted", "definitions.from_inside",
     "definitions.equal_copy", "definitions.unrelated", "shape.renamed_property", "shape.explicit_required",
     "shape.inherited_class", "shape.shared_node", "multi_element", "jsonschema.check_schema_ok",
-    "multi_element.refers_to_primary", "definitions.holding_class",
+    "multi_element.refers_to_primary", "definitions.holding_class", "reserialized.same_tree_other_arguments",
 ]
 
 
@@ -246,6 +246,19 @@ def run_shard(ctx):
         if nodes >= 3:
             ctx.nontrivial(canon([case.get("spec") or case.get("schema"), mode, sorted(definitions)]))
         check_tree(ctx, sut, element, extra, definitions, model_schema, values, case, f08, f09)
+        # the same tree again in the same process with other definitions / in another role: every
+        # document must stand on its own (nothing may survive from the previous serialization)
+        if idx % 2 == 0:
+            ctx.count("reserialized.same_tree_other_arguments")
+            again = dict(case, definitions_mode=mode + "->none", reserialized=True)
+            check_tree(ctx, sut, element, [], {}, model_schema, values[:4], again, False, f09)
+            if isinstance(element, type):
+                wrapper = sut.Array(element)
+                wrapped_values = [[copy.deepcopy(v)] for v in values[:3]] + [[], [1]]
+                check_tree(ctx, sut, wrapper, [], {"def9": sut.String(format="uuid")}, None, wrapped_values,
+                           dict(case, definitions_mode="wrapped_in_array", reserialized=True), False, False)
+                check_tree(ctx, sut, element, extra, definitions, model_schema, values[:4],
+                           dict(case, definitions_mode=mode + "->again", reserialized=True), f08, f09)
         ctx.sample({k: v for k, v in case.items()}, every=70)
 
 
